@@ -42,11 +42,18 @@ Next == Len(toks) < MaxTok /\ \E t \in 1..NTok : toks' = Append(toks, t)
 Spec == Init /\ [][Next]_vars
 
 S == Cat(toks)
-Cfg(f, q, p) == [filter |-> f, quit |-> q, parsing |-> p, zeroEof |-> ZeroEof, nmeaB2 |-> NmeaB2]
+Cfg(f, q, p) == [filter |-> f, quit |-> q, parsing |-> p, zeroEof |-> ZeroEof, nmeaB2 |-> NmeaB2, sock |-> FALSE]
 R(stream, f, q, p) == Run(stream, Cfg(f, q, p), GoodNmea)
 Full == R(S, 7, 1, TRUE)
 
 ItemsEq(a, b) == Len(a) = Len(b) /\ \A i \in 1..Len(a) : a[i].a = b[i].a /\ a[i].b = b[i].b /\ a[i].p = b[i].p
+
+\* C10: reading through the socket wrapper (all-or-nothing reads) delivers the same items as reading a file
+LemmaSocket == Lemma \in {"socket", "all"} =>
+    \A q \in {0, 1} :
+        LET f == R(S, 7, q, TRUE)
+            k == Run(S, [Cfg(7, q, TRUE) EXCEPT !.sock = TRUE], GoodNmea)
+        IN ItemsEq(k.out, f.out) /\ k.pc = "done" /\ f.pc = "done"
 
 \* C07 on the machine: the run ends, nothing left, slices
 LemmaEnds == Lemma \in {"ends", "all"} =>
